@@ -21,7 +21,7 @@ LEVEL = 'other'
 MANIFEST = {
     'engine': 'pysym+frames',
     'level': 'other',
-    'technique': 'contracts on add_step / PlanStep.result / partition helpers by symbolic execution + repository-wide write-discipline census; invariant monitor over generated and harvested plans',
+    'technique': 'contracts on add_step / PlanStep.result / partition helpers / add_plan_step placement / plan_query freshness by symbolic execution + repository-wide write-discipline census; invariant monitor over generated and harvested plans',
     'text': 'The numbering invariant is proved from the contract of add_step (all list lengths) and a whole-repository discipline census, '
             'which together imply that a top-level Result always points to an earlier step; container sub-steps are covered by the '
             'partition obligations (one genuine defect: a map-reduce container placed before steps its sub-steps consume — known finding). '
